@@ -410,6 +410,255 @@ def fortran_part(c, d, lib):
     return 1
 
 
+# ---------------------------------------------------------------------------
+# Python front (specs/PyOwn.tla): the same library wrapped as an extension module
+PYAML = """
+library: pown
+cxx_header: own.hpp
+options: {debug: true, wrap_python: true, wrap_lua: false, wrap_fortran: false, wrap_c: false, PY_array_arg: list}
+declarations:
+- decl: class Cls
+  declarations:
+  - decl: Cls(int v)
+  - decl: ~Cls()
+  - decl: int get() const
+  - decl: Cls * clone() +owner(caller)
+- decl: Cls * pooled(int v) +owner(caller)+free_pattern(pool_release)
+- decl: Cls * make(int v) +owner(caller)
+- decl: Cls * borrow() +owner(library)
+- decl: char * pdup(int k) +owner(caller)
+- decl: int * pints(int n) +owner(caller)+dimension(n)
+patterns:
+  pool_release: |
+    Cls *cxx_ptr = reinterpret_cast<Cls *>(ptr);
+    pool_put(cxx_ptr);
+"""
+PCPP_EXTRA = """
+static void track_(void *p) { tracked_[ntracked_++ % 64] = p; vt_live(1); vt_begin("Lib", "ctor"); vt_obj(p); vt_end(); }
+char *pdup(int k) { char *p = dupname(k); track_(p); return p; }
+int *pints(int n) { int *p = newints(n); track_(p); return p; }
+"""
+PHPP_EXTRA = "char *pdup(int k);\nint *pints(int n);\n"
+
+PYDRIVER = r"""
+import gc, json, sys
+sys.path.insert(0, sys.argv[3])
+seqs = json.load(open(sys.argv[1]))
+out = open(sys.argv[2], "a")
+start = int(sys.argv[4])
+import pown
+def mark(**kw):
+    out.write(json.dumps(kw) + "\n"); out.flush()
+mark(ev="Prelude")
+keep = pown.borrow()        # the library creates its own object on first use: outside every sequence
+for n in range(start, len(seqs)):
+    env = {}
+    mark(ev="SeqBegin", n=n)
+    for op, v, w in seqs[n]:
+        mark(ev="Op", op=op, v=v, w=w)
+        exc = ""
+        try:
+            if op == "ctor": env[v] = pown.Cls(7)
+            elif op == "make": env[v] = pown.make(9)
+            elif op == "pooled": env[v] = pown.pooled(3)
+            elif op == "borrow": env[v] = pown.borrow()
+            elif op == "clone": env[w] = env[v].clone()
+            elif op == "alias": env[w] = env[v]
+            elif op == "method": env[v].get()
+            elif op == "del": del env[v]
+            elif op == "dupname":
+                if pown.pdup(4) != "D4": exc = "wrong value"
+            elif op == "newints":
+                if list(pown.pints(3)) != [10, 11, 12]: exc = "wrong value"
+            gc.collect()
+        except BaseException as ex:
+            exc = type(ex).__name__
+        mark(ev="OpEnd", exc=exc)
+    mark(ev="SeqEnd", n=n)
+"""
+
+
+def py_sequences(maxl):
+    """Every statement sequence of length <= maxl over two variables that Python itself allows (a bound source, an
+    unbound target), closed by deleting what is still bound."""
+    V = ["a", "b"]
+    out = []
+
+    def ops(bound):
+        for v in V:
+            if v not in bound:
+                for op in ("ctor", "make", "pooled", "borrow"):
+                    yield (op, v, ""), bound | {v}
+            else:
+                yield ("method", v, ""), bound
+                yield ("del", v, ""), bound - {v}
+                for w in V:
+                    if w not in bound:
+                        yield ("clone", v, w), bound | {w}
+                        yield ("alias", v, w), bound | {w}
+        yield ("dupname", "", ""), bound
+        yield ("newints", "", ""), bound
+
+    def rec(seq, bound):
+        if seq:
+            out.append(seq + [("del", v, "") for v in sorted(bound)])
+        if len(seq) == maxl:
+            return
+        for o, b in ops(bound):
+            rec(seq + [o], b)
+    rec([], frozenset())
+    return out
+
+
+def python_part(c, d, thorough):
+    from rt import pygen
+    cfg = "MC_PyOwn_thorough" if thorough else "MC_PyOwn_quick"
+    r, bad = model_check("MC_PyOwn", cfg, timeout=1800)
+    c.add_tlc(r, cfg)
+    if bad:
+        c.violation("model:PyOwn:" + bad, "design-level invariant %s violated" % bad, {"tlc_tail": r.out[-3000:]})
+    pd = os.path.join(d, "py")
+    os.makedirs(pd)
+    open(os.path.join(pd, "pown.yaml"), "w").write(PYAML)
+    open(os.path.join(pd, "own.hpp"), "w").write(HPP.replace("#endif", PHPP_EXTRA + "#endif", 1) if "#endif" in HPP else HPP + PHPP_EXTRA)
+    open(os.path.join(pd, "own.cpp"), "w").write(CPP + PCPP_EXTRA)
+    out = os.path.join(pd, "gen")
+    os.makedirs(out)
+    rc, so, se = shroudrun.run(["--outdir", out, "--logdir", out, os.path.join(pd, "pown.yaml")])
+    if rc != 0:
+        c.violation("py-build:shroud", "Shroud fails on the Python description: " + se[-600:])
+        return 0
+    objs = []
+    for s_ in [os.path.join(pd, "own.cpp"), os.path.join(RT, "vt.c")] + [os.path.join(out, f) for f in sorted(os.listdir(out)) if f.endswith(".cpp")]:
+        o = os.path.join(pd, os.path.basename(s_) + ".o")
+        cc = ["gcc", "-std=c99"] if s_.endswith(".c") else ["g++", "-std=c++11"]
+        rc, txt = sh(cc + ["-g", "-fPIC", "-c", s_, "-o", o, "-I", pd, "-I", out, "-I", RT, "-I", pygen.PYINC], pd)
+        if rc != 0:
+            c.violation("py-build:compile", "Python extension does not compile: " + txt[-800:])
+            return 0
+        objs.append(o)
+    rc, txt = sh(["g++", "-shared", "-Wl,--wrap=free", "-o", os.path.join(pd, "pown.so")] + objs, pd)
+    if rc != 0:
+        c.violation("py-build:link", txt[-800:])
+        return 0
+    seqs = py_sequences(4 if thorough else 3)
+    json.dump(seqs, open(os.path.join(pd, "seqs.json"), "w"))
+    open(os.path.join(pd, "driver.py"), "w").write(PYDRIVER)
+    tf = os.path.join(pd, "trace.ndjson")
+    start, crashes = 0, {}
+    while start < len(seqs):
+        p = subprocess.run([common.PY, "driver.py", "seqs.json", tf, pd, str(start)], cwd=pd,
+                           env=dict(os.environ, VT_TRACE=tf, MALLOC_CHECK_="3"), stdout=subprocess.PIPE, stderr=subprocess.PIPE, text=True, timeout=3000)
+        if p.returncode == 0:
+            break
+        last = -1
+        for line in open(tf):
+            try:
+                e = json.loads(line)
+            except ValueError:
+                continue
+            if e.get("ev") == "SeqBegin":
+                last = e["n"]
+        if last < start:
+            raise MachineryError("python ownership driver failed outside a sequence: " + p.stderr[-400:])
+        crashes[last] = "exit %d: %s" % (p.returncode, (p.stderr.strip().split("\n") or [""])[-1][:160])
+        start = last + 1
+    # cut the log into sequences; objects are numbered per sequence in order of construction, the library's own is MaxObj
+    traces, cur, op, lib_addr, prelude = [], None, None, None, False
+    MAXOBJ = 12
+    for line in open(tf):
+        try:
+            e = json.loads(line)
+        except ValueError:
+            continue
+        ev = e.get("ev")
+        if ev == "Prelude":
+            prelude, lib_addr = True, None
+        elif ev == "SeqBegin":
+            prelude = False
+            cur = {"events": [], "crash": crashes.get(e["n"], ""), "n": e["n"], "ids": {}}
+            traces.append(cur)
+        elif ev == "Op" and cur is not None:
+            op = {"op": e["op"], "v": e["v"], "w": e["w"], "lib": [], "exc": "crash"}
+            cur["events"].append(op)
+        elif ev == "OpEnd" and op is not None:
+            op["exc"] = e["exc"]
+            op = None
+        elif ev == "SeqEnd":
+            cur = None
+        elif ev == "Lib":
+            addr = [x["v"] for x in e["vals"] if x["t"] == "o"][0]
+            if prelude:
+                if e["f"] == "ctor":
+                    lib_addr = addr
+                continue
+            if cur is None:
+                continue
+            if addr == lib_addr:
+                oid = MAXOBJ
+            elif e["f"] == "ctor":
+                oid = cur["ids"][addr] = len([1 for x in cur["ids"]]) + 1 if addr not in cur["ids"] or True else 0
+                cur["nobj"] = cur.get("nobj", 0) + 1
+                oid = cur["ids"][addr] = cur["nobj"]
+            else:
+                oid = cur["ids"].get(addr, MAXOBJ - 1)
+            kind = e["f"]
+            if kind == "dtor" and op is not None and op["op"] in ("dupname", "newints"):
+                kind = "free"
+            (op["lib"] if op is not None else cur["events"][-1]["lib"] if cur["events"] else []).append({"ev": kind, "id": oid})
+    if not traces:
+        raise MachineryError("no Python ownership sequence recorded")
+    controls = []
+    for t in traces:
+        if any(e["op"] == "del" and e["lib"] for e in t["events"]) and len(controls) < 2:
+            k = json.loads(json.dumps(t))
+            for e in k["events"]:
+                if e["op"] == "del" and e["lib"]:
+                    e["lib"] = []
+                    break
+            controls.append(k)
+        if any(e["op"] == "borrow" for e in t["events"]) and len(controls) < 4 and any(e["op"] == "del" and not e["lib"] for e in t["events"]):
+            k = json.loads(json.dumps(t))
+            for e in k["events"]:
+                if e["op"] == "del" and not e["lib"]:
+                    e["lib"] = [{"ev": "dtor", "id": MAXOBJ}]
+                    break
+            controls.append(k)
+    alltr = [{"events": t["events"], "crash": t["crash"]} for t in traces + controls]
+    verdicts, st = validate_traces("Trace_PyOwn", "Trace_PyOwn", alltr, shard=3000)
+    c.add_stats(st, "Trace_PyOwn", len(traces))
+    cnt = {}
+    for i, t in enumerate(traces):
+        v, detail = verdicts[i]
+        cnt[v] = cnt.get(v, 0) + 1
+        if v == "BADTREE":
+            raise MachineryError("python ownership driver and PyOwn disagree on what is possible: %s" % detail)
+        if v == "REJECT":
+            ops = ",".join("%s(%s%s)" % (e["op"], e["v"], "->" + e["w"] if e["w"] else "") for e in t["events"])
+            what = detail.split('"')[1] if '"' in detail else detail
+            key = "py-seq:%s:%s" % (what[:50], ops)
+            if what == "object not released (leak)":
+                # recorded findings (KNOWN_FINDINGS.txt) are recognised by what made the object that is not released:
+                # +owner(caller) on a class result and on plain memory is not implemented in the Python wrapper
+                import re
+                m = re.search(r'"object not released \(leak\)", "\w+", (\d+)', detail)
+                oid = int(m.group(1)) if m else -1
+                maker = [e["op"] for e in t["events"] if any(x["ev"] == "ctor" and x["id"] == oid for x in e["lib"])]
+                if maker and maker[0] in ("make", "pooled", "clone"):
+                    key = "py-owned-class-result-not-released:" + maker[0]
+                elif maker and maker[0] in ("dupname", "newints"):
+                    key = "py-owned-memory-not-freed:" + maker[0]
+            c.violation(key, "python: %s: %s" % (ops, detail), {"ops": ops, "events": t["events"], "detail": detail})
+        elif v == "ACCEPT":
+            c.count(1, ["py:" + json.dumps([(e["op"], e["v"], e["w"]) for e in t["events"]])])
+    for i, k in enumerate(controls):
+        v, detail = verdicts[len(traces) + i]
+        if v != "REJECT":
+            raise MachineryError("python negative control %d not rejected: %s %s" % (i, v, detail))
+    c.part("python_ownership", sequences=len(traces), verdicts=cnt, negative_controls_rejected=len(controls))
+    return len(traces)
+
+
 def run(tier):
     with Check("C06", tier) as c:
         thorough = tier == "thorough"
@@ -439,6 +688,7 @@ def run(tier):
                     continue
                 traces += cut_sequences(ev, asan, idtor_kinds(lib[2]))
             nf = fortran_part(c, d, lib)
+            python_part(c, d, thorough)
         if not traces:
             raise MachineryError("no sequences recorded")
         controls = []
